@@ -193,3 +193,76 @@ def left_null_vector(rows):
         piv_rows.append((c, r))
         aug[i] = r
     return None
+
+
+# ----------------------------------------------------------------------------- model runs under a time budget
+
+def budget_model_queries(qs, M, budget, per_chunk=60.0, chunk_weight=60000, jobs=16, drv="drv_fac"):
+    """Run the extracted model on the query blocks `qs` (strings starting with 'Q <id> ...') under a wall-clock budget.
+    Queries are packed into chunks of bounded text size, every chunk is one process with its own
+    time limit; answers printed before a kill are kept (the driver flushes after every answer).
+    Returns (answers {id: tokens}, missing [ids in submission order])."""
+    import subprocess, time, os, threading
+    from concurrent.futures import ThreadPoolExecutor
+    from lib import VERIF, build_model
+    if not qs:
+        return {}, []
+    build_model()
+    exe = os.path.join(VERIF, "ocaml", "gen", drv)
+    ids = [q.split(None, 2)[1] for q in qs]
+    order = sorted(range(len(qs)), key=lambda i: -len(qs[i]))      # long queries start first (they run beside the many short ones)
+    chunks, cur, w = [], [], 0
+    for i in order:
+        if cur and w + len(qs[i]) > chunk_weight:
+            chunks.append(cur)
+            cur, w = [], 0
+        cur.append(i)
+        w += len(qs[i])
+    if cur:
+        chunks.append(cur)
+    if os.environ.get("QSX_DUMP_ALLQ"):
+        open(os.environ["QSX_DUMP_ALLQ"], "a").write("M %s\n" % M + "\n".join(qs) + "\n")
+    deadline = time.time() + budget
+    ans, lock = {}, threading.Lock()
+
+    def one(ch):
+        left = deadline - time.time()
+        if left <= 1:
+            return
+        txt = "M %s\n" % M + "\n".join(qs[i] for i in ch) + "\n"
+        p = subprocess.Popen([exe], stdin=subprocess.PIPE, stdout=subprocess.PIPE, stderr=subprocess.DEVNULL, text=True)
+        try:
+            out, _ = p.communicate(txt, timeout=min(per_chunk, left))
+        except subprocess.TimeoutExpired:
+            p.kill()
+            out, _ = p.communicate()
+        with lock:
+            for line in (out or "").splitlines():
+                t = line.split()
+                if len(t) >= 2 and t[0] == "A":
+                    ans[t[1]] = t[2:]
+    with ThreadPoolExecutor(max_workers=jobs) as ex:
+        list(ex.map(one, chunks))
+    missing = [ids[i] for i in range(len(qs)) if ids[i] not in ans]
+    if missing and os.environ.get("QSX_DUMP_MISSING"):
+        open(os.environ["QSX_DUMP_MISSING"], "a").write("M %s\n" % M + "\n".join(qs[i] for i in range(len(qs)) if ids[i] not in ans) + "\n")
+    return ans, missing
+
+
+def py_solves_ok(mat, kind, a, x):
+    """untrusted quick multiply-back with Python fractions: kind 'FT': mat x = a ; 'BT': x mat = a.
+    Returns the index of the first equation that fails, or None."""
+    n = len(mat)
+    xs = [F(t) for t in x]
+    if len(xs) != n:
+        return 0
+    if kind == "FT":
+        for i in range(n):
+            row = mat[i]
+            if sum((row[j] * xs[j] for j in range(n) if row[j] != 0 and xs[j] != 0), F(0)) != a[i]:
+                return i
+    else:
+        for j in range(n):
+            if sum((xs[i] * mat[i][j] for i in range(n) if xs[i] != 0 and mat[i][j] != 0), F(0)) != a[j]:
+                return j
+    return None
